@@ -95,6 +95,40 @@ pub fn run_isolated<T: Send + 'static>(
     res.map_err(|p| panic_msg(&p))
 }
 
+struct AssertSend<T>(T);
+// SAFETY: used only by `step_isolated`, where the caller blocks until the closure has returned:
+// the wrapped values are never touched by two threads at once.
+unsafe impl<T> Send for AssertSend<T> {}
+
+/// Run one simulated step on a fresh OS thread (the only worker of a fresh rayon pool), so that
+/// every thread-local a step can depend on - std's `RandomState` keys and their per-thread
+/// counter, which fix the iteration order of every `HashMap`/`HashSet` the library creates - is a
+/// function of (run seed, step id, node) and not of how many steps ran before it. Without this a
+/// twin run that differs in one earlier step (C11: a restart replaced by a no-op; C12: a crash)
+/// draws different hash orders later and, e.g., encrypts path secrets in another order.
+/// The caller blocks until `f` has returned. Returns `f`'s result and the captured log records.
+pub fn step_isolated<R>(run_seed: u64, step: u64, node: u64, capture_logs: bool, f: impl FnOnce() -> R) -> (R, Vec<String>) {
+    let time = sim_time();
+    let pool = rayon::ThreadPoolBuilder::new().num_threads(1).stack_size(64 << 20).build().expect("rayon pool");
+    let job = AssertSend(f);
+    let out = pool.install(move || {
+        let job = job;
+        simhook::install(mix3(run_seed, step, node));
+        if let Some(t) = time {
+            set_time(t);
+        }
+        let guard = if capture_logs { Some(crate::logcap::install()) } else { None };
+        let r = (job.0)();
+        let logs = crate::logcap::drain();
+        drop(guard);
+        simhook::uninstall();
+        clear_time();
+        AssertSend((r, logs))
+    });
+    drop(pool);
+    out.0
+}
+
 pub fn panic_msg(p: &Box<dyn std::any::Any + Send>) -> String {
     if let Some(s) = p.downcast_ref::<&str>() {
         s.to_string()
